@@ -1,7 +1,7 @@
 """C06 — transaction and block serialisation round trip, ids."""
 import json, os, re, pickle, signal, threading
 from io import BytesIO
-from harness.core import hexp, REPO, run_driver
+from harness.core import Infra, hexp, REPO, run_driver
 from harness import txgen
 
 
@@ -66,6 +66,12 @@ class TxChecker:
             ctx.count(kind + (':strict' if strict else ':nonstrict'))
             if spec != 'none':
                 ctx.nontrivial.add(hash(raw))
+            # verdict of the strict reader (theorems T7-T9: what it accepts re-serialises byte-identically; it refines the reader compared here)
+            sv = re.search(r'strictrd=(\S+)', extra)
+            sv = sv.group(1) if sv else 'missing'
+            ctx.count('strict-reader:' + ('n/a' if spec == 'none' else sv))
+            if sv == 'acc-differs' or (sv == 'acc' and 'reser=same' not in spec):
+                raise Infra('the model contradicts its theorems T7/T8 on ' + op[:200])
             a, b = norm_wit(py), norm_wit(spec)
             if a == b:
                 if ctx.evals % 211 == 0:
